@@ -5,7 +5,8 @@ use std::collections::BTreeMap;
 use std::io::{BufRead, Write};
 use std::panic::{catch_unwind, AssertUnwindSafe};
 use std::path::{Path, PathBuf};
-use xvc_ecs::{R1NStore, XvcEntity, XvcStore};
+use xvc_core::types::diff::{apply_diff, diff_store, update_with_actual, Diff, DiffStore};
+use xvc_ecs::{HStore, R11Store, R1NStore, XvcEntity, XvcStore};
 
 fn ent(n: u64) -> XvcEntity { XvcEntity::from((n, 0u64)) }
 fn num(e: XvcEntity) -> u64 { let t: (u64, u64) = e.into(); t.0 }
@@ -27,6 +28,7 @@ struct St {
     cur: String,
     reference: BTreeMap<u64, String>,
     r1n: R1NStore<String, i32>,
+    r11: R11Store<String, i32>,
     gen_bin: PathBuf,
     oracle_failures: Vec<String>,
 }
@@ -60,6 +62,60 @@ impl St {
             }
         }
     }
+}
+
+
+fn parse_pairs(s: &str) -> Option<Vec<(u64, String)>> {
+    if s == "-" { return Some(vec![]); }
+    s.split(',').map(|it| { let mut p = it.split(':'); match (p.next(), p.next(), p.next()) { (Some(e), Some(v), None) => e.parse().ok().map(|e| (e, v.to_string())), _ => None } }).collect()
+}
+fn parse_ents(s: &str) -> Option<Vec<u64>> {
+    if s == "-" { return Some(vec![]); }
+    s.split(',').map(|e| e.parse().ok()).collect()
+}
+fn parse_diffs(s: &str) -> Option<Vec<(u64, Diff<String>)>> {
+    if s == "-" { return Some(vec![]); }
+    s.split(',').map(|it| {
+        let (e, d) = it.split_once('=')?;
+        let e: u64 = e.parse().ok()?;
+        let parts: Vec<&str> = d.split(':').collect();
+        let d = match parts.as_slice() {
+            ["I"] => Diff::Identical,
+            ["S"] => Diff::Skipped,
+            ["RM", a] => Diff::RecordMissing { actual: a.to_string() },
+            ["AM", r] => Diff::ActualMissing { record: r.to_string() },
+            ["D", r, a] => Diff::Different { record: r.to_string(), actual: a.to_string() },
+            _ => return None,
+        };
+        Some((e, d))
+    }).collect()
+}
+fn show_diff(d: &Diff<String>) -> String {
+    match d {
+        Diff::Identical => "I".into(),
+        Diff::Skipped => "S".into(),
+        Diff::RecordMissing { actual } => format!("RM:{actual}"),
+        Diff::ActualMissing { record } => format!("AM:{record}"),
+        Diff::Different { record, actual } => format!("D:{record}:{actual}"),
+    }
+}
+fn parse_bool(s: &str) -> Option<bool> { match s { "1" => Some(true), "0" => Some(false), _ => None } }
+
+/// the harness's own idea of what applying one diff to a plain map means (independent of xvc-core)
+fn reference_apply(reference: &mut BTreeMap<u64, String>, diffs: &[(u64, Diff<String>)], an: bool, rm: bool) {
+    for (e, d) in diffs {
+        match d {
+            Diff::Identical | Diff::Skipped => {}
+            Diff::RecordMissing { actual } => { if an { reference.insert(*e, actual.clone()); } }
+            Diff::ActualMissing { .. } => { if rm { reference.remove(e); } }
+            Diff::Different { actual, .. } => { reference.insert(*e, actual.clone()); }
+        }
+    }
+}
+fn show_r11(r: &R11Store<String, i32>) -> String {
+    let l: Vec<String> = r.left.iter().map(|(e, v)| format!("{}:{}", num(*e), v)).collect();
+    let x: Vec<String> = r.right.iter().map(|(e, v)| format!("{}:{}", num(*e), v)).collect();
+    format!("left={{{}}} right={{{}}}", l.join(","), x.join(","))
 }
 
 fn step(st: &mut St, toks: &[&str]) -> String {
@@ -150,6 +206,96 @@ fn step(st: &mut St, toks: &[&str]) -> String {
             let log = st.store.all_event_log_for_entity(ent(e)).unwrap();
             let items: Vec<String> = log.iter().map(|ev| match ev { xvc_ecs::ecs::event::Event::Add { value, .. } => format!("+{value}"), _ => "-".into() }).collect();
             format!("[{}]", items.join(","))
+        }
+        ["q", "sentfor", v] => match st.store.entities_for(&v.to_string()) {
+            None => "none".into(),
+            Some(l) => { let mut l: Vec<u64> = l.iter().map(|e| num(*e)).collect(); l.sort(); format!("[{}]", l.iter().map(|e| e.to_string()).collect::<Vec<_>>().join(",")) }
+        },
+        ["diff", acts, sub] => {
+            let acts = match parse_pairs(acts) { Some(a) => a, None => return "bad-op".into() };
+            let sub: Option<std::collections::HashSet<XvcEntity>> = if *sub == "all" { None } else { match parse_ents(sub) { Some(l) => Some(l.into_iter().map(ent).collect()), None => return "bad-op".into() } };
+            let mut actuals = HStore::<String>::new();
+            for (e, v) in acts { actuals.insert(ent(e), v); }
+            let d = diff_store(&st.store, &actuals, sub.as_ref());
+            let mut items: Vec<(u64, String)> = d.iter().map(|(e, d)| (num(*e), show_diff(d))).collect();
+            items.sort();
+            format!("[{}]", items.iter().map(|(e, d)| format!("{e}={d}")).collect::<Vec<_>>().join(","))
+        }
+        [op @ ("adiff" | "uwa"), an, rm, acts] => {
+            let (an, rm, acts) = match (parse_bool(an), parse_bool(rm), parse_pairs(acts)) { (Some(a), Some(b), Some(c)) => (a, b, c), _ => return "bad-op".into() };
+            let mut actuals = HStore::<String>::new();
+            let mut act_ref: BTreeMap<u64, String> = BTreeMap::new();
+            for (e, v) in acts { actuals.insert(ent(e), v.clone()); act_ref.insert(e, v); }
+            let d = diff_store(&st.store, &actuals, None);
+            if *op == "adiff" { st.store = apply_diff(&st.store, &d, an, rm).unwrap(); } else { update_with_actual(&mut st.store, &d, an, rm).unwrap(); }
+            // reference: what "make the records equal to the actual values, as far as the flags allow" means for a plain map
+            let keys: Vec<u64> = st.reference.keys().chain(act_ref.keys()).copied().collect();
+            for e in keys {
+                match (st.reference.get(&e).cloned(), act_ref.get(&e).cloned()) {
+                    (None, Some(a)) => { if an { st.reference.insert(e, a); } }
+                    (Some(_), None) => { if rm { st.reference.remove(&e); } }
+                    (Some(r), Some(a)) => { if r != a { st.reference.insert(e, a); } }
+                    (None, None) => {}
+                }
+            }
+            st.check_reference(op);
+            "ok".into()
+        }
+        [op @ ("adiffx" | "uwax"), an, rm, diffs] => {
+            let (an, rm, diffs) = match (parse_bool(an), parse_bool(rm), parse_diffs(diffs)) { (Some(a), Some(b), Some(c)) => (a, b, c), _ => return "bad-op".into() };
+            let mut d: DiffStore<String> = HStore::new();
+            let mut last: BTreeMap<u64, Diff<String>> = BTreeMap::new();
+            for (e, x) in diffs { d.insert(ent(e), x.clone()); last.insert(e, x); }
+            if *op == "adiffx" { st.store = apply_diff(&st.store, &d, an, rm).unwrap(); } else { update_with_actual(&mut st.store, &d, an, rm).unwrap(); }
+            let last: Vec<(u64, Diff<String>)> = last.into_iter().collect();
+            reference_apply(&mut st.reference, &last, an, rm);
+            st.check_reference(op);
+            "ok".into()
+        }
+        ["r11-new"] => { st.r11 = R11Store::new(); "ok".into() }
+        ["r11-ins", e, l, x] => {
+            let (e, x): (u64, i32) = match (e.parse(), x.parse()) { (Ok(a), Ok(b)) => (a, b), _ => return "bad-op".into() };
+            st.r11.insert(&ent(e), l.to_string(), x);
+            "ok".into()
+        }
+        ["r11-rem", e] => {
+            let e: u64 = match e.parse() { Ok(e) => e, Err(_) => return "bad-op".into() };
+            st.r11.remove(ent(e));
+            "ok".into()
+        }
+        ["r11-save"] => {
+            std::thread::sleep(std::time::Duration::from_micros(3));
+            st.r11.save_r11store(&st.root.join("r11")).unwrap();
+            "ok".into()
+        }
+        ["r11-load"] => { st.r11 = R11Store::load_r11store(&st.root.join("r11")).unwrap(); "ok".into() }
+        ["r11-q"] => show_r11(&st.r11),
+        ["r11-tuple", e] => {
+            let e: u64 = match e.parse() { Ok(e) => e, Err(_) => return "bad-op".into() };
+            let (l, x) = st.r11.tuple(&ent(e));
+            format!("{}|{}", show_opt(l.cloned()), show_opt(x.map(|x| x.to_string())))
+        }
+        ["r11-l2r", e] => {
+            let e: u64 = match e.parse() { Ok(e) => e, Err(_) => return "bad-op".into() };
+            match st.r11.left_to_right(&ent(e)) { None => "none".into(), Some((e, x)) => format!("{}:{}", num(*e), x) }
+        }
+        ["r11-r2l", e] => {
+            let e: u64 = match e.parse() { Ok(e) => e, Err(_) => return "bad-op".into() };
+            match st.r11.right_to_left(&ent(e)) { None => "none".into(), Some((e, l)) => format!("{}:{}", num(*e), l) }
+        }
+        ["r11-ebl", l] => match st.r11.entity_by_left(&l.to_string()) { None => "none".into(), Some(e) => num(e).to_string() },
+        ["r11-ebr", x] => {
+            let x: i32 = match x.parse() { Ok(x) => x, Err(_) => return "bad-op".into() };
+            match st.r11.entity_by_right(&x) { None => "none".into(), Some(e) => num(e).to_string() }
+        }
+        ["r11-lbl", l] => show_opt(st.r11.lookup_by_left(&l.to_string()).map(|x| x.to_string())),
+        ["r11-lbr", x] => {
+            let x: i32 = match x.parse() { Ok(x) => x, Err(_) => return "bad-op".into() };
+            show_opt(st.r11.lookup_by_right(&x).cloned())
+        }
+        ["r11-filter", k] => {
+            let k: i32 = match k.parse() { Ok(k) => k, Err(_) => return "bad-op".into() };
+            show_r11(&st.r11.filter(|_, x| k <= *x))
         }
         ["r1n-new"] => { st.r1n = St::new_r1n(); "ok".into() }
         ["r1n-ins", pe, pc, ce, cc] => {
@@ -242,7 +388,7 @@ fn main() {
         let root = base.join(format!("case-{case}"));
         let _ = std::fs::remove_dir_all(&root);
         std::fs::create_dir_all(&root).unwrap();
-        St { root, store: XvcStore::new(), cur: "A".into(), reference: BTreeMap::new(), r1n: St::new_r1n(), gen_bin: gen_bin.clone(), oracle_failures: vec![] }
+        St { root, store: XvcStore::new(), cur: "A".into(), reference: BTreeMap::new(), r1n: St::new_r1n(), r11: R11Store::new(), gen_bin: gen_bin.clone(), oracle_failures: vec![] }
     };
     let mut st = mk(case);
     for line in stdin.lock().lines() {
